@@ -71,7 +71,7 @@ G0 == [tr |-> -1, brought |-> 0, taken |-> 0, banks |-> <<>>, bankIds |-> {}, la
        missed |-> <<>>, missedIds |-> {}, ext |-> FALSE, closedBetween |-> FALSE, lastStatus |-> "none",
        cnt |-> <<>>, cntIds |-> {}, actEvents |-> <<>>, spyCalls |-> <<>>, inGate |-> "", blindSet |-> <<>>, blindSetInGate |-> FALSE,
        leftSince |-> {}, faults |-> 0, lastUpd |-> 0, kfMidLeave |-> FALSE,
-       withholdSt |-> <<>>, settledSt |-> <<>>, openSt |-> <<>>, callQ |-> <<>>, pubH |-> <<>>, afterFire |-> FALSE, fireSt |-> <<>>]
+       withholdSt |-> <<>>, settledSt |-> <<>>, openSt |-> <<>>, callQ |-> <<>>, pubH |-> <<>>, autoFails |-> 0, errEvents |-> 0, afterFire |-> FALSE, fireSt |-> <<>>]
 
 Fn(f, ids, x, d) == IF x \in ids THEN f[x] ELSE d
 ZeroCnt == [at |-> 0, ct |-> 0, kt |-> 0, fold |-> FALSE, fr |-> ""]
@@ -143,8 +143,10 @@ Upd(gg, k) ==
         ELSE g4
       g6 == IF t.ev = "withhold" THEN [g5 EXCEPT !.withholdSt = <<st>>] ELSE g5
       g7 == IF t.ev \in {"q", "end"} THEN [g6 EXCEPT !.settledSt = <<>>] ELSE g6
-      g8 == IF t.ev = "hook" /\ t.a.kind = "continue.fire" THEN [g7 EXCEPT !.afterFire = TRUE, !.fireSt = <<st>>]
-            ELSE IF ~IsRet(t) THEN [g7 EXCEPT !.afterFire = FALSE] ELSE g7
+      g7b == IF t.ev = "spy" /\ t.res = "fail" /\ t.a.kind \in {"readyall", "ante", "blinds", "next", "create"} THEN [g7 EXCEPT !.autoFails = @ + 1]
+             ELSE IF t.ev = "cb:error" /\ t.res = "ErrInjected" THEN [g7 EXCEPT !.errEvents = @ + 1] ELSE g7
+      g8 == IF t.ev = "hook" /\ t.a.kind = "continue.fire" THEN [g7b EXCEPT !.afterFire = TRUE, !.fireSt = <<st>>]
+            ELSE IF ~IsRet(t) THEN [g7b EXCEPT !.afterFire = FALSE] ELSE g7b
   IN g8
 
 \* ---------------------------------------------------------------- C03
@@ -391,6 +393,19 @@ C11_autoStep(t, gg) == (HasPubStep(t, gg) /\ gg.callQ[1].kind \in {"readyall", "
 C02_handCreated(t, gg) == (HasPubStep(t, gg) /\ gg.callQ[1].kind = "create") => PubStep(t, gg)
 C11_publishedInOrder(t, gg) == FirstPub(t, gg) => gg.callQ # <<>>
 
+\* ---------------------------------------------------------------- C13 (failing game backend)
+AutoKinds == {"readyall", "ante", "blinds", "next", "create"}
+FailedCalls(gg) == SelectSeq(gg.spyCalls, LAMBDA c : c[2] = "fail")
+C13_errorReturned(t, gg) ==
+  (t.ev \in ActEvs /\ \E i \in 1..Len(gg.spyCalls) : gg.spyCalls[i][2] = "fail" /\ gg.spyCalls[i][1] \in TurnKinds) => t.res = "ErrInjected"
+C13_unchanged(t, gg) == (t.ev \in ActEvs /\ t.res = "ErrInjected") => (t.same /\ TurnEvents(gg) = <<>> /\ TurnCalls(gg) = <<>>)
+C13_retryAccepted(t, gg) ==
+  (t.ev \in ActEvs /\ t.a.note = "cur-retry" /\ FailedCalls(gg) = <<>>) => t.res = "ok"
+\* with failures in the hand, its course is still exactly the chain of successfully applied steps
+C13_courseBySuccessfulSteps(t, gg) == (HasPubStep(t, gg) /\ gg.faults > 0) => PubStep(t, gg)
+\* a failure in a step the engine performs by itself reaches the table error callback
+C13_autoFailReported(t, gg) == (t.ev = "end" /\ gg.autoFails > 0) => gg.errEvents >= gg.autoFails
+
 \* ---------------------------------------------------------------- C12
 C12_createAtOpenBlind(t, gg) ==
   (t.ev = "spy" /\ t.a.kind = "create" /\ t.res = "ok" /\ Len(gg.openBlind) = 5) =>
@@ -482,6 +497,11 @@ CheckLine(k, gg) ==
      /\ Clause("C11_noEarlyAdvance", C11_noEarlyAdvance(t, gg), "", k)
      /\ Clause("C11_progress", C11_progress(t, gg), kfmid, k)
      /\ Clause("C11_resultComplete", C11_resultComplete(t, gg), kfmid, k)
+     /\ Clause("C13_errorReturned", C13_errorReturned(t, gg), "", k)
+     /\ Clause("C13_unchanged", C13_unchanged(t, gg), "", k)
+     /\ Clause("C13_retryAccepted", C13_retryAccepted(t, gg), "", k)
+     /\ Clause("C13_courseBySuccessfulSteps", C13_courseBySuccessfulSteps(t, gg), "", k)
+     /\ Clause("C13_autoFailReported", C13_autoFailReported(t, gg), "", k)
      /\ Clause("C12_createAtOpenBlind", C12_createAtOpenBlind(t, gg), "", k)
      /\ Clause("C12_gameBlind", C12_gameBlind(t, gg), "", k)
      /\ Clause("C12_updateSticks", C12_updateSticks(t, gg), IF gg.blindSetInGate THEN "KF-C12-lost-update" ELSE "", k)
